@@ -260,7 +260,9 @@ func GenRange(t *rapid.T, d MetricData, o RangeOpts, unwrap bool) *gen.Metric {
 		q := rapid.SampledFrom([]struct {
 			text string
 			v    float64
-		}{{"0.5", 0.5}, {"0", 0}, {"1", 1}, {"0.9", 0.9}, {"0.25", 0.25}, {"0.99", 0.99}}).Draw(t, "quantile")
+		}{{"0.5", 0.5}, {"0", 0}, {"1", 1}, {"0.9", 0.9}, {"0.25", 0.25}, {"0.99", 0.99},
+			// above 1: +Inf (the Prometheus convention; a negative parameter is not in the grammar)
+			{"1.5", 1.5}, {"2", 2}}).Draw(t, "quantile")
 		m.HasParam, m.Param, m.ParamText = true, q.v, q.text
 	}
 	if o.Grouping && groupable[m.Op] && rapid.IntRange(0, 1).Draw(t, "grouping") == 0 {
